@@ -22,6 +22,8 @@ MPI semantics implemented
   * completion: a receive completes once matched; a synchronous send (Issend/Ssend) only once its
     matching receive has been posted; a standard send (Isend/Send/isend/send) either at once ("eager",
     buffered) or like a synchronous one ("rendezvous") — the scheduler decides per send.
+  * a receive that completes while its matching send is still incomplete reads the sender's buffer as it is THEN
+    (late read), so reuse of a send buffer before completion also shows in the received values;
   * completion is lazy (it happens in Wait/Test of the owner, the latest legal moment): the send buffer
     is hashed when posted and again when the send completes (or at finalisation for requests that are
     never waited for) -> `buffer modified before completion` findings.  A receive buffer is optionally
@@ -291,17 +293,26 @@ _WRAPPERS = {('core.py', None), ('mesh.py', 'isend'), ('mesh.py', 'irecv'), ('co
              ('convergence_controller.py', 'Recv'), ('convergence_controller.py', 'send'), ('convergence_controller.py', 'recv')}
 
 
-def _call_site():
-    """'<file>:<function>' of the innermost frame outside the simulator and outside pySDC's thin send/recv wrappers."""
+_STAT_FLAGS = ('add_to_stats',)     # arguments that only steer statistics
+
+
+def _call_site(depth=2, flags=False):
+    """'<file>:<function>' of the innermost frame outside the simulator and outside pySDC's thin send/recv wrappers;
+    with flags=True: '<function>(<bool arguments>)' of that frame, e.g. 'send_full(blocking=True)'."""
     import os
     import sys
-    f = sys._getframe(2)
+    f = sys._getframe(depth)
     while f is not None:
         fn = os.path.basename(f.f_code.co_filename)
         name = f.f_code.co_name
         if (fn, None) in _WRAPPERS or (fn, name) in _WRAPPERS:
             f = f.f_back
             continue
+        if flags:
+            co = f.f_code
+            args = co.co_varnames[:co.co_argcount + co.co_kwonlyargcount]
+            fl = ['%s=%s' % (a, f.f_locals[a]) for a in args if isinstance(f.f_locals.get(a), bool) and a not in _STAT_FLAGS]
+            return '%s(%s)' % (name, ','.join(sorted(fl)))
         return '%s:%s' % (fn, name)
     return '?'
 
@@ -335,7 +346,11 @@ class _ReqState:
         self.seq = None
         self.dropped = False
         self.completable_at_drop = None
+        self.modified_at_drop = False
+        self.dropped_in = None
+        self.dropped_by = None
         self.site = _call_site()
+        self.posted_by = _call_site(flags=True)
 
     @property
     def matched(self):
@@ -365,6 +380,11 @@ class Request:
             if not st.completed and not st.cancelled and st.seq is not None and not st.dropped:
                 st.dropped = True
                 st.completable_at_drop = st.completable()
+                st.dropped_in = _call_site(1)
+                st.dropped_by = _call_site(1, flags=True)
+                if st.kind == 'send' and self.arr is not None:
+                    # last moment at which the buffer can be observed through this handle
+                    st.modified_at_drop = _h(self.arr.tobytes()) != st.post_hash
         except Exception:  # noqa
             pass
 
@@ -670,7 +690,8 @@ class _Action:
 
 
 class World:
-    def __init__(self, nranks, scheduler, poison=True, reduce_order='rank', max_events=2_000_000):
+    def __init__(self, nranks, scheduler, poison=True, reduce_order='rank', max_events=2_000_000, late_read=True):
+        self.late_read = late_read
         self.n = nranks
         self.sched = scheduler
         self.poison = poison
@@ -945,7 +966,15 @@ class World:
             else:
                 if s.lower:
                     raise SimError('Recv (buffer) matched a pickle send')
-                self._fill(req.arr, s.payload, 'Recv')
+                data = s.payload
+                if self.late_read and not s.completed and s.arr_ref is not None:
+                    # the data of an incomplete send may be read from the sender's buffer as late as now
+                    a = s.arr_ref()
+                    if a is not None:
+                        data = a.tobytes()
+                self._fill(req.arr, data, 'Recv')
+                self.log.append((how, w, st.seq, 'recv', (s.owner_w, s.seq), _h(data), False))
+                return
             self.log.append((how, w, st.seq, 'recv', (s.owner_w, s.seq), s.post_hash, False))
 
     def _wait(self, req):
@@ -1139,9 +1168,10 @@ class World:
                 if not st.completed:
                     freed = st.arr_ref is not None and st.arr_ref() is None
                     self._finding('send-never-completed', matched=st.matched, handle_dropped=st.dropped,
-                                  completable_at_drop=st.completable_at_drop, buffer_freed=freed, **base)
+                                  completable_at_drop=st.completable_at_drop, buffer_freed=freed,
+                                  dropped_in=st.dropped_in, dropped_by=st.dropped_by, posted_by=st.posted_by, **base)
                     arr = st.arr_ref() if st.arr_ref is not None else None
-                    if arr is not None and _h(arr.tobytes()) != st.post_hash:
+                    if st.modified_at_drop or (arr is not None and _h(arr.tobytes()) != st.post_hash):
                         self._finding('send-buffer-modified', detail='buffer of a never-completed non-blocking send changed after the post', **base)
             else:
                 if not st.matched:
